@@ -8,7 +8,7 @@
    What is proved here is the library-helper half of C20 ("helper routines never write beyond the
    space they reserved") for all argument values.  The statement about all 24 executables on all
    byte streams is NOT a theorem: it is observed by sanitizer runs (sampling), see checks/C20.py. *)
-From PP Require Import ToStr.ToStringDefs ToStr.ToStringProofs.
+From PP Require Import ToStr.ToStringDefs ToStr.ToStringProofs ToStr.ToStringDigits.
 Local Open Scope Z_scope.
 
 (* full statement of the property, kept visible; only the part below it is proved *)
@@ -46,6 +46,24 @@ Print Assumptions C20_i16_fits.
 Theorem C20_ptr_bool_fit : (forall p, fits kBytes_ptr (fmt_ptr p)) /\ (forall b, fits kBytes_bool (fmt_bool b)).
 Proof. split; [exact fmt_ptr_fits_proof|exact fmt_bool_fits_proof]. Qed.
 Print Assumptions C20_ptr_bool_fit.
+
+(* (a'') "never uses garbage": the text handed back is EXACTLY the decimal numeral, for every value of
+   the 32- and 64-bit types ([dec]: independent specification by repeated division by 10; the proof
+   goes through the regenerated digit table, the reciprocal-multiplication constants of
+   Convert8DigitsSSE2 and the leading-zero skipping of the 16-byte vector path) *)
+Theorem C20_u32_digits : forall v, 0 <= v < 4294967296 -> f_out (fmt_u32 v) = dec v.
+Proof. exact fmt_u32_digits_proof. Qed.
+Print Assumptions C20_u32_digits.
+
+Theorem C20_u64_digits : forall v, 0 <= v < 18446744073709551616 -> f_out (fmt_u64 v) = dec v.
+Proof. exact fmt_u64_digits_proof. Qed.
+Print Assumptions C20_u64_digits.
+
+Theorem C20_i32_i64_digits :
+  (forall v, -2147483648 <= v < 2147483648 -> f_out (fmt_i32 v) = dec_signed v) /\
+  (forall v, -9223372036854775808 <= v < 9223372036854775808 -> f_out (fmt_i64 v) = dec_signed v).
+Proof. split; [exact fmt_i32_digits_proof|exact fmt_i64_digits_proof]. Qed.
+Print Assumptions C20_i32_i64_digits.
 
 (* (a') double / float: whatever the digit generator delivers within its documented range
         (<= 17 resp. 9 digits, decimal point position of a finite double / float), the text plus
@@ -108,6 +126,11 @@ Example C20_nonvacuous_float_23 :
 Proof. vm_compute. split; reflexivity. Qed.
 
 (* integers: the vector store of a 13-digit value touches 16 bytes; extreme values *)
+Example C20_nonvacuous_dec :
+  dec 0 = [48] /\ dec 1234567890123 = [49;50;51;52;53;54;55;56;57;48;49;50;51] /\
+  dec_signed (-9223372036854775808) = [45;57;50;50;51;51;55;50;48;51;54;56;53;52;55;55;53;56;48;56].
+Proof. vm_compute. repeat split. Qed.
+
 Example C20_nonvacuous_integers :
   f_foot (fmt_u64 1234567890123) = 16 /\ zlen (f_out (fmt_u64 1234567890123)) = 13 /\
   f_out (fmt_u64 18446744073709551615) = [49;56;52;52;54;55;52;52;48;55;51;55;48;57;53;53;49;54;49;53] /\
